@@ -470,8 +470,8 @@ func (c *Case) drawPoolSettings(t *rapid.T) {
 		}
 	}
 	// interface implementers: codes are drawn (distinct per interface)
-	shapeCodes := rapid.SliceOfNDistinct(rapid.Uint32Range(0, 255), 6, 6, func(v uint32) uint32 { return v }).Draw(t, "shapeCodes")
-	for i, ty := range []reflect.Type{tof(Circle{}), tof(Rect{}), tof(Poly{}), tof(Dot{}), tof(Addr{}), tof(Unit{})} {
+	shapeCodes := rapid.SliceOfNDistinct(rapid.Uint32Range(0, 255), 7, 7, func(v uint32) uint32 { return v }).Draw(t, "shapeCodes")
+	for i, ty := range []reflect.Type{tof(Circle{}), tof(Rect{}), tof(Poly{}), tof(Dot{}), tof(Addr{}), tof(Unit{}), tof(Tag8{})} {
 		c.reg[ty] = &regEntry{Code: &Code{W: 1, V: shapeCodes[i]}}
 	}
 	c.reg[tof(Addr{})].FieldKey = rapid.SampledFrom([]string{"", "pubKeyHash"}).Draw(t, "addrKey")
@@ -489,7 +489,7 @@ func (c *Case) drawPoolSettings(t *rapid.T) {
 	case 0:
 		ss.AtMostOne = 1
 	case 1:
-		ss.MustOccur = []uint32{shapeCodes[rapid.IntRange(0, 5).Draw(t, "must")]}
+		ss.MustOccur = []uint32{shapeCodes[rapid.IntRange(0, 6).Draw(t, "must")]}
 		if ss.Max != 0 && ss.Max < 1 {
 			ss.Max = 1
 		}
@@ -556,7 +556,7 @@ func (c *Case) registerAll() {
 		}
 		must(c.API.RegisterTypeSettings(reflect.New(ty).Elem().Interface(), ts))
 	}
-	must(c.API.RegisterInterfaceObjects((*Shape)(nil), (*Circle)(nil), (*Rect)(nil), (*Poly)(nil), Dot{}, (*Addr)(nil), (*Unit)(nil)))
+	must(c.API.RegisterInterfaceObjects((*Shape)(nil), (*Circle)(nil), (*Rect)(nil), (*Poly)(nil), Dot{}, (*Addr)(nil), (*Unit)(nil), Tag8{}))
 	must(c.API.RegisterInterfaceObjects((*Payload)(nil), (*PayA)(nil), (*PayB)(nil), (*PayC)(nil)))
 	must(c.API.RegisterInterfaceObjects((*Token)(nil), TokName(""), TokNum(0), TokFlag(false), TokList(nil), TokBytes(nil), TokMap(nil), TokStruct{}))
 	if c.Validators {
@@ -667,7 +667,13 @@ func (c *Case) nAddrPtr() *Node {
 
 func (c *Case) nShape() *Node {
 	return &Node{Kind: KIface, T: reflect.TypeOf((*Shape)(nil)).Elem(), Name: "Shape",
-		Impls: []*Node{c.nCirclePtr(), c.nRectPtr(), c.nPolyPtr(), c.nDot(), c.nAddrPtr(), c.nUnitPtr()}}
+		Impls: []*Node{c.nCirclePtr(), c.nRectPtr(), c.nPolyPtr(), c.nDot(), c.nAddrPtr(), c.nUnitPtr(), c.nTag8()}}
+}
+
+// nTag8 is a byte array with an object code that implements Shape by value.
+func (c *Case) nTag8() *Node {
+	ty := tof(Tag8{})
+	return &Node{Kind: KByteArr, T: ty, Name: "Tag8", N: 8, Code: c.regCode(ty)}
 }
 
 // nToken: interface whose implementations are a string, a number, a bool, a slice, a byte slice, a map and a struct.
@@ -1069,6 +1075,10 @@ func (c *Case) genStruct(t *rapid.T, depth int, label string) *Node {
 		case 14:
 			f.N = rapid.SampledFrom([]func() *Node{c.nCustomU24, c.nCustomVar, c.nCustomP16, c.nCustomPR}).Draw(t, fl+".custom")()
 			if f.N.Kind == KPtr {
+				if rapid.IntRange(0, 3).Draw(t, fl+".ptrptr") == 0 {
+					// a pointer to the pointer that carries the custom codec
+					f.N = &Node{Kind: KPtr, T: reflect.PointerTo(f.N.T), Elem: f.N}
+				}
 				f.Optional = rapid.Bool().Draw(t, fl+".opt")
 			}
 		case 21:
